@@ -70,14 +70,15 @@ class Schedule:
 class Scheduler:
     """Owns the sys.monitoring tool; run() executes one schedule of thread bodies."""
 
-    def __init__(self, prefixes: tuple[str, ...] | None = None) -> None:
+    def __init__(self, prefixes: tuple[str, ...] | None = None, exclude: tuple[str, ...] = ()) -> None:
         self.prefixes = prefixes or (os.path.join(common.KIO_DIR, "serial") + os.sep, os.path.join(common.KIO_DIR, "_utils.py"))
+        self.exclude = exclude
         self.current: Schedule | None = None
         self.started = False
 
     def _on_line(self, code, line):  # noqa: ANN001, ANN202
         fn = code.co_filename
-        if not fn.startswith(self.prefixes):
+        if not fn.startswith(self.prefixes) or (self.exclude and fn.startswith(self.exclude)):
             return mon.DISABLE
         s = self.current
         if s is not None:
